@@ -237,6 +237,10 @@ func (g *TGen) Gen() *genSchema {
 			if f.Type.Base() == n {
 				// a self reference must be breakable: nullable or inside a list
 				f.Type = TNamed(n, false)
+				if j == 0 {
+					// the first field is never self-referential, so that a value of the type can always be written
+					f.Type = TNamed("Int", false)
+				}
 			}
 			t.Fields = append(t.Fields, f)
 		}
